@@ -233,11 +233,74 @@ def _run_chunk(cmd, lines, env=None, timeout=1800):
     return rc, out
 
 
+IDLE_LIMIT = int(os.environ.get("VERIF_IDLE_LIMIT", "240"))    # seconds without a new answer = the case hangs
+
+
+def _run_streaming(cmd, lines, env=None):
+    """The implementation harness answers (and flushes) one line per case.  Feeds [lines], collects the answers as
+    they come; when the process dies, or gives no new answer for IDLE_LIMIT seconds, the first unanswered case is
+    answered (crash <rc>) / (crash -999) and the rest is run in a new process."""
+    import queue
+    import threading
+    e = dict(os.environ)
+    if env:
+        e.update(env)
+    res = []
+    pos = 0
+    while pos < len(lines):
+        part = lines[pos:]
+        p = subprocess.Popen(cmd, stdin=subprocess.PIPE, stdout=subprocess.PIPE, stderr=subprocess.DEVNULL, env=e)
+        q = queue.Queue()
+
+        def feed(p=p, part=part):
+            try:
+                p.stdin.write(("\n".join(part) + "\n").encode())
+                p.stdin.close()
+            except (BrokenPipeError, OSError):
+                pass
+
+        def read(p=p, q=q):
+            for raw in p.stdout:
+                q.put(raw.decode("utf-8", "replace").rstrip("\n"))
+            q.put(None)
+
+        threading.Thread(target=feed, daemon=True).start()
+        threading.Thread(target=read, daemon=True).start()
+        got = 0
+        hung = False
+        while got < len(part):
+            try:
+                item = q.get(timeout=IDLE_LIMIT)
+            except queue.Empty:
+                hung = True
+                break
+            if item is None:
+                break
+            res.append(item)
+            got += 1
+        if got == len(part):
+            try:
+                p.wait(timeout=60)
+            except subprocess.TimeoutExpired:
+                p.kill()
+            break
+        p.kill()
+        try:
+            rc = p.wait(timeout=60)
+        except subprocess.TimeoutExpired:
+            rc = -998
+        res.append("(crash %d)" % (-999 if hung else rc))
+        pos += got + 1
+    return res
+
+
 def _run_robust(cmd, lines, env=None, timeout=1800):
     """Runs a chunk; if the process dies (abort, stack overflow, timeout) the
     offending case is isolated and answered (crash <rc>)."""
     if not lines:
         return []
+    if os.path.basename(cmd[0]) == "wfh" and os.environ.get("VERIF_NO_STREAM") != "1":
+        return _run_streaming(cmd, lines, env)
     rc, out = _run_chunk(cmd, lines, env, timeout)
     if rc == 0 and len(out) == len(lines):
         return out
